@@ -7,8 +7,14 @@
 (*     the names registered after the mutation; every version has its own set *)
 (*     of names), content versions of resources from updated.begin;           *)
 (*   - entitlement as the protocol defines it: a legacy session from connect  *)
-(*     to close, a 2026-07-28 session from the acknowledgement of its         *)
-(*     subscriptions/listen request to close; a URI subscription from the     *)
+(*     to close for the notifications whose listChanged capability the server *)
+(*     announced to it in the initialize result (what the session was TOLD at *)
+(*     its handshake - whatever the capability came from, and whatever        *)
+(*     becomes of the feature sets afterwards: also the change that removes   *)
+(*     the last feature of a kind is a change; a legacy session that was not  *)
+(*     told is owed nothing but may be sent the notification), a 2026-07-28   *)
+(*     session from the acknowledgement of its subscriptions/listen request   *)
+(*     (the server grants what it advertises at that moment) to close; a URI subscription from the     *)
 (*     successful subscribe to the unsubscribe / close; the URIs of ONE       *)
 (*     listen request naming several URIs from its acknowledgement (a request *)
 (*     of which the server refused a URI is never acknowledged: the session   *)
@@ -53,7 +59,7 @@ OnConnect(e) ==
   IF ~e.ok THEN m' = m
   ELSE m' = [m EXCEPT !.era = Put(m.era, e.s, e.era), !.open = @ \cup {e.s},
                       !.ent = IF e.era = "legacy"
-                                THEN [x \in DOMAIN m.ent \cup {<<e.s, n>> : n \in ListNotifs} |->
+                                THEN [x \in DOMAIN m.ent \cup {<<e.s, n>> : n \in ListNotifs \cap AsSet(e.told)} |->
                                         IF x[1] = e.s THEN e.seq ELSE m.ent[x]]
                                 ELSE m.ent]
 
@@ -94,7 +100,9 @@ OnSend(e) ==
   IF e.n = "ack" \/ e.s = "?" THEN m' = m
   ELSE LET t == Topic(e)
            rec == [seq |-> e.seq, stamp |-> IF e.n = "updated" THEN m.cv ELSE m.ver] IN
-       /\ ((e.n \in ListNotifs /\ Get(m.ent, <<e.s, e.n>>, 0) = 0) => Fail2("C18.OnlyEntitled", e.s, e.n))
+       \* only to entitled sessions; a connected legacy session is one (it need not have been told of the capability)
+       /\ ((e.n \in ListNotifs /\ Get(m.ent, <<e.s, e.n>>, 0) = 0 /\ ~(Get(m.era, e.s, "") = "legacy" /\ e.s \in m.open))
+              => Fail2("C18.OnlyEntitled", e.s, e.n))
        /\ ((e.n \in ListNotifs /\ e.n \in m.off) => Fail2("C18.NoneWhenDisabled", e.s, e.n))
        /\ m' = [m EXCEPT !.sends = Put(m.sends, <<e.s, t>>, Append(Get(m.sends, <<e.s, t>>, <<>>), rec))]
 
